@@ -16,10 +16,14 @@ Oracle (independent of the model, elementary formulas with Python integers / `fr
   * MatrixMult output on basis pairs = the integer matrix product.
 Bilinearity + these finitely many cases determine each map on all inputs (Lean: `IsBilin.ext_basis`).
 
-HRR: the DFT coefficients are irrational; per d the coefficient table
-`Σ_c out[k,c]·A[c,i]·B[c,j] = [k = ±i ± j mod d]` is a FINITE NUMERICAL check (1e-12) on the real
-transform matrices read from the built connections; the Lean theorems `Hrr.net_eq_spec_of_coeff`
-lift it to all inputs.  It is a per-d certificate, not an all-d proof.
+HRR: the DFT coefficients are irrational, so the driver receives the table `dft_half(d)` of the implementation
+(exact transport of its floats) and the layout of the three transforms around ANY table is compared exactly.
+That the network with the REAL table `cos(2πwx/d) − i·sin(2πwx/d)` is circular convolution (resp. the unbind
+forms) for EVERY d and all inputs is a Lean theorem (`Props/C05S.lean: Hrr.net_real_eq_spec`, from the
+half-spectrum cosine sum `Spectral.sum_cos_half`).  The tie of that table to the code is the entry-wise check
+`dft_half(d)[w, x] = (cos, −sin)(2π·(w·x mod d)/d)` at 1e-12 (op `hrr-real-table`).  The per-d coefficient table
+`Σ_c out[k,c]·A[c,i]·B[c,j] = [k = ±i ± j mod d]` computed numerically from the transforms read back from the
+built connections stays as the property oracle on the implementation (it is what exhibits a failing input).
 """
 import math
 import warnings
@@ -38,7 +42,7 @@ from nengo_spa.networks import vtb as vtbnet
 from nengo_spa.networks import tvtb as tvtbnet
 
 PROPERTY = "C05"
-LEAN_MODULES = ["SpaModel.Props.C05"]
+LEAN_MODULES = ["SpaModel.Props.C05", "SpaModel.Props.C05S", "SpaModel.Spectral.CosSum"]
 AUDIT = "SpaModel/Audit/C05.lean"
 DRIVER = "drivers/C05.lean"
 RULE = ("per algebra, dimensionality d and accepted flag combination: all d*d basis pairs, >= d exactly-unitary x "
@@ -50,7 +54,8 @@ ASSUMPTIONS = [
     "Nengo builder/simulator: a connection with transform T adds T*x, Direct ensembles compute their function exactly, "
     "pass-through nodes add their inputs (trusted; all synapses removed, pipeline delay measured per simulation)",
     "IEEE rounding: outputs compared at 1e-9 relative to the operand norms; HRR coefficient table at 1e-12",
-    "HRR: per-d finite numerical certificate of the DFT coefficient table, lifted by bilinearity (no all-d DFT proof)",
+    "HRR: the all-d theorem Hrr.net_real_eq_spec is about the real table (cos, -sin)(2*pi*w*x/d); the implementation's "
+    "dft_half(d) is compared with it entry-wise at 1e-12 (np.exp / IEEE rounding trusted below that)",
 ]
 
 ALGS = {"hrr": HrrAlgebra(), "vtb": VtbAlgebra(), "tvtb": TvtbAlgebra()}
@@ -448,6 +453,24 @@ def hrr_tables(d):
     return mat_tok(dft.real), mat_tok(dft.imag)
 
 
+def check_real_table(ctx, d):
+    """tie of `C05.Hrr.realTbl d` (the table of the all-d theorem) to `dft_half(d)` of the code"""
+    dft = np.asarray(cc.dft_half(d))
+    base = {"op": "hrr-real-table", "d": d}
+    ctx.count(f"hrr-real-table {d}", branch="hrr-real-table")
+    if dft.shape != (d // 2 + 1, d):
+        ctx.diff(base, list(dft.shape), [d // 2 + 1, d], op="hrr-real-table")
+        return
+    worst = 0.0
+    for w in range(d // 2 + 1):
+        for x in range(d):
+            ang = 2.0 * math.pi * ((w * x) % d) / d
+            worst = max(worst, abs(dft[w, x].real - math.cos(ang)), abs(dft[w, x].imag + math.sin(ang)))
+    ctx.extra.setdefault("hrr_real_table_max_err", {})[str(d)] = worst
+    if worst > 1e-12:
+        ctx.diff(base, worst, "dft_half(d)[w,x] = cos(2*pi*w*x/d) - i sin(2*pi*w*x/d) within 1e-12", op="hrr-real-table")
+
+
 def readback_hrr(ctx, d, ia, ib, table_tok):
     """transforms of the built CircularConvolution: layout vs model (exact table in, 1e-12), and the finite
     coefficient table  sum_c out[k,c] A[c,i] B[c,j] = [k == +-i +-j mod d]  (numerical certificate, 1e-12)"""
@@ -640,6 +663,8 @@ def run(ctx):
     for alg in ("hrr", "vtb", "tvtb"):
         for d in dims(alg, ctx.tier):
             table_tok = hrr_tables(d) if alg == "hrr" else None
+            if alg == "hrr":
+                check_real_table(ctx, d)
             for ul, ur in flag_combos(alg):
                 res = check_config(ctx, "impl", alg, d, ul, ur, True, None)
                 if res:
@@ -678,5 +703,6 @@ def run(ctx):
     if not nd:
         ctx.flush(DRIVER)
     ctx.note(f"driver wall {_t.time() - t0:.1f}s for the batched requests")
-    ctx.note("HRR: the coefficient table is a finite numerical check per d (max errors under hrr_coefficient_table_max_err); "
-             "lifted to all inputs by Hrr.net_eq_spec_of_coeff; no all-d DFT proof is claimed")
+    ctx.note("HRR: all-d theorem Hrr.net_real_eq_spec (Props/C05S.lean) for the real cos/-sin table; dft_half(d) of the code is "
+             "tied to that table entry-wise (hrr_real_table_max_err); the numerical coefficient table per d "
+             "(hrr_coefficient_table_max_err) remains as the oracle on the implementation's transforms")
